@@ -6,7 +6,8 @@
 (* the real decoder (where the module has one) made of that URL.           *)
 (* Required: (i) real decode(encode(p)) = p with its dimensions;           *)
 (* (ii) name, width, height in the puzz.link order; (iii) the independent  *)
-(* pzpr decoder reads the body back as p; (iv) legacy helper encoders and  *)
+(* pzpr decoder reads the body back as p (the encoder is called twice on   *)
+(* the same objects; the second URL is judged); (iv) legacy helper encoders and *)
 (* combinator codecs give identical text for identical data.               *)
 (***************************************************************************)
 EXTENDS Pzpr, Json, IOUtils, TLCExt
@@ -63,6 +64,7 @@ DecodedSame ==
 
 Verdict ==
     IF R.status # "ok" THEN "url:encoder-raised-" \o R.exc
+    ELSE IF R.second_encoding_differs THEN "url:encoding-the-same-problem-objects-a-second-time-gives-another-url"
     ELSE IF ~R.frame_ok THEN "url:not-of-the-form-prefix-name-width-height-body"
     ELSE IF R.name # R.expected_name THEN "url:wrong-puzzle-name"
     ELSE IF R.width # C.w \/ R.height # C.h THEN "url:width-and-height-not-in-puzz.link-order"
